@@ -118,6 +118,15 @@ def _compare(ctx, reg, name: str, d: Decl, js: dict, required: List[str], schema
                 continue
             if js.get(b) is None or not _num_eq(js.get(b), facts[b]):
                 probs.append(f'{b} {js.get(b)!r} vs enforced {facts[b]!r}')
+            else:
+                # the generator may round float noise, but only inwards: a value exactly at the published bound must be accepted
+                try:
+                    pv, ev = float(js.get(b)), float(facts[b])
+                    if (b == 'maximum' and pv > ev) or (b == 'minimum' and pv < ev):
+                        probs.append(f'published {b} {pv!r} lies outside the enforced bound {ev!r}: an input exactly at the documented '
+                                     f'bound is rejected')
+                except (TypeError, ValueError):
+                    pass
         else:
             if js.get(b) not in (None, ''):
                 probs.append(f'{b} {js.get(b)!r} published but the reader enforces none')
@@ -276,7 +285,48 @@ def check_result(ctx) -> None:
     ctx.floor('Y4', n, 200, 'result fields')
 
 
+def check_unit_pairing(ctx) -> None:
+    """Y5: the unit attribute the schema publishes is the unit the reader converts unit-suffixed inputs into (and in
+    which the bounds are therefore enforced)."""
+    repo = ctx.repo
+    gen = repo.method('GeophiresXSchemaGenerator', 'generate_json_schema')
+    pub = None
+    for st in ast.walk(gen.node):
+        if isinstance(st, ast.Assign) and norm(st.targets[0]) == 'units_val':
+            keys = {c.slice.value for c in ast.walk(st.value) if isinstance(c, ast.Subscript) and isinstance(c.slice, ast.Constant)
+                    and isinstance(c.slice.value, str)}
+            if len(keys) == 1:
+                pub = keys.pop()
+    ctx.require(pub is not None, 'generate_json_schema: the attribute published as `units` was not found')
+    cu = repo.function('geophires_x/Parameter.py', 'ConvertUnits')
+    conv = [c for c in ast.walk(cu.node) if isinstance(c, ast.Call) and isinstance(c.func, ast.Attribute) and c.func.attr in ('ito', 'to')
+            and c.args and isinstance(c.func.value, ast.Name) and c.func.value.id.startswith('New_val')]
+    ctx.require(len(conv) >= 1, 'ConvertUnits: pint conversion call not found')
+    n = 0
+    for c in conv:
+        tgt = c.args[0]
+        attrs = set()
+        exprs = [tgt]
+        if isinstance(tgt, ast.Name):
+            exprs = [st.value for st in ast.walk(cu.node) if isinstance(st, ast.Assign) and norm(st.targets[0]) == tgt.id]
+        for e in exprs:
+            for a in ast.walk(e):
+                if isinstance(a, ast.Attribute) and a.attr in ('CurrentUnits', 'PreferredUnits') and norm(a.value) == 'ParamToModify':
+                    attrs.add(a.attr)
+        n += 1
+        ctx.check(attrs == {pub}, 'Y5', 'ConvertUnits/conversion-target=published-unit', f'{cu.module.rel}:{c.lineno}',
+                  f'unit-suffixed inputs are converted into the parameter\'s {sorted(attrs)} but the schema publishes {pub!r} as the unit (and '
+                  f'Min/Max are enforced on the converted number): for a parameter whose two unit attributes differ the published unit and '
+                  f'bounds are not the enforced ones', fact=f'reader converts into {pub}, schema publishes {pub}')
+    # which parameters would be affected: declarations with CurrentUnits != PreferredUnits (informational table)
+    reg = get_registry(repo)
+    diff = [f'{d.owner}.{d.attr}' for d in reg.inputs() if isinstance(d.get('CurrentUnits'), EnumRef) and isinstance(d.get('PreferredUnits'), EnumRef)
+            and d.get('CurrentUnits') != d.get('PreferredUnits')]
+    ctx.tables['inputs_with_current_units_differing_from_preferred'] = diff[:20]
+
+
 def run(ctx) -> None:
+    ctx.rule('Y5', 'the unit attribute published by the generator is the one ConvertUnits converts unit-suffixed inputs into')
     ctx.rule('Y1', 'request schema properties = union of the input parameters registered by the classes the simulator can '
                    'instantiate (none missing, none extra)')
     ctx.rule('Y2', 'for every parameter declared identically wherever it is declared: schema type/default/minimum/maximum/units/'
@@ -286,5 +336,6 @@ def run(ctx) -> None:
     check_geophires(ctx)
     check_hip(ctx)
     check_result(ctx)
+    check_unit_pairing(ctx)
     ctx.exhaustive = True
     ctx.undecided('"committed = generated" is a baseline test (needs the generator to run); here both are tied to what is enforced')
